@@ -265,6 +265,11 @@ def _emit_access_log(
         }
         if cancelled:
             extra["cancelled"] = True
+        if status == "error" and not error_message:
+            # An exception raised without text (``ValueError("")``) must still
+            # yield a schema-valid record: an error record requires a non-empty
+            # ``error_message``, so fall back to the exception's type name.
+            error_message = error_type or "error"
         if error_message:
             extra["error_message"] = error_message
         if server_version:
